@@ -24,6 +24,7 @@ from pytezos.operation.fees import calculate_fee
 from pytezos.operation.fees import default_fee
 from pytezos.operation.fees import default_gas_limit
 from pytezos.operation.fees import default_storage_limit
+from pytezos.operation.fees import signature_size
 from pytezos.operation.forge import forge_operation_group
 from pytezos.operation.result import OperationResult
 from pytezos.rpc.errors import RpcError
@@ -271,7 +272,8 @@ class OperationGroup(ContextMixin, ContentMixin):
             raise RpcError.from_errors(OperationResult.errors(opg_with_metadata))
 
         fee_acc = 0
-        extra_size = 32 + 64  # size of serialized branch and signature + safe reserve
+        # size of serialized branch and signature + safe reserve
+        extra_size = 32 + max(signature_size(content) for content in opg_with_metadata['contents'])
         num_contents = len(opg_with_metadata['contents'])
         counter_offset = self.context.get_counter_offset()
         opg.contents.clear()
